@@ -3,7 +3,7 @@ import os, subprocess, hashlib, sys
 
 REPO = os.environ.get('VERIF_REPO', '/repo')
 VERIF = os.path.dirname(os.path.dirname(os.path.abspath(__file__)))
-BUILD = os.path.join(VERIF, 'build')
+BUILD = os.environ.get('VERIF_BUILD', os.path.join(VERIF, 'build'))      # scratch; VERIF_BUILD / VERIF_EVIDENCE let a second run (seed regression on a worktree) work beside the registered one
 
 CXXFLAGS = ['-std=c++11', '-O1', '-fno-exceptions', '-fno-rtti', '-fno-vectorize', '-fno-slp-vectorize',
             '-fno-unroll-loops', '-fno-strict-aliasing', '-Wno-everything',
